@@ -72,6 +72,8 @@ func checkC01(c *Check, a *Anchors) {
 	c01DepsJoined(c, a)
 	c01DepErrorKept(c, a)
 	sharedWait(c, a)
+	c04RecordAfterSuccess(c, a) // a fingerprint recorded before the commands lets a second, concurrent reference of the dependency return "up to date" while the first is still running its commands
+	c06HashSeesInputs(c, a)     // a dependency call that is deduplicated against a call with other variables never runs
 	c06OnceKey(c, a) // two distinct run: once dependencies must not share an execution key (one of them would never run)
 }
 
